@@ -409,6 +409,8 @@ def cc_build(out, sources, scratch, defs=(), sanitize=True, opt="-O1", real=8, s
            '-DA_HAVE_H="a.verif.h"', "-DA_EXPORTS", "-DLIBA_VERIF=1"]
     if sanitize:
         cmd += SAN_FLAGS
+    if os.environ.get("VERIF_COV"):
+        cmd += ["--coverage"]          # tools/covaudit.py: which lines of the anchored code no harness ever executes
     cmd += ["-D" + d for d in defs]
     cmd += list(extra)
     cmd += list(sources) + ["-o", out] + list(libs)
